@@ -2,6 +2,8 @@
 Model: coq/Kernel/Model.v; theorems: coq/Kernel/Deliver*.v, statements in coq/Props/C02.v.
 Correspondence: kernel_common script families (random + hand-shaped delivery scenarios) on the real onl.sim kernel vs the model
 (whole trace: values/exceptions seen at every yield, probe order, query answers, what run()/step() returned or raised).
+Direct scenarios (kind "direct", run by extra_checks on every run, real kernel only): fail() with exceptions deriving directly
+from BaseException / KeyboardInterrupt, fail() with non-exceptions, children raising BaseException subclasses.
 Monitor: the property statement over an INDEPENDENT record (obs["dlog"]) made by this plugin's own instrumentation of the real
 kernel -- a generator proxy around every process body (what was yielded, what was received, how the body ended), wrappers around
 env.schedule / env.step (outcome of every event when triggered and when processed, its callback list, what step() raised) and
@@ -473,6 +475,128 @@ def mutate_case(rng, case):
     return {**case, "codes": codes, "plan": plan}
 
 
+
+# ----------------------------------------------------------------------------------------------------
+# direct scenarios (kind "direct"): exception classes the script language cannot express -- classes deriving DIRECTLY from
+# BaseException -- and non-exceptions passed to fail().  Run on the real kernel only; the checks are evaluated inside.
+
+class _UserExc(Exception):
+    pass
+
+
+class _Abort(BaseException):
+    """application-level abort signal, deliberately not an Exception"""
+
+
+DIRECT_FAIL = {"fail-user-exception": (_UserExc, ("link-down", 3)),
+               "fail-baseexception-subclass": (_Abort, ("link-down", 3)),
+               "fail-keyboardinterrupt": (KeyboardInterrupt, ("k", 3))}
+DIRECT_NONEXC = {"fail-string": "not an exception", "fail-none": None, "fail-int": 3, "fail-exception-class": ValueError}
+DIRECT_CHILD = {"child-raises-user-exception": (_UserExc, ("child-gave-up", 9)),
+                "child-raises-baseexception-subclass": (_Abort, ("child-gave-up", 9))}
+DIRECT = list(DIRECT_FAIL) + list(DIRECT_NONEXC) + list(DIRECT_CHILD)
+
+
+def run_direct(name):
+    from onl.sim import Environment
+    checks = []
+
+    def chk(sig, ok, what):
+        checks.append([sig, bool(ok), what])
+
+    env = Environment()
+    log = []
+
+    def waiter(tag, ev):
+        try:
+            v = yield ev
+            log.append((tag, env.now, "value", repr(v)))
+        except BaseException as err:      # noqa: B036 -- the scenario wants to see everything
+            log.append((tag, env.now, type(err), err.args))
+
+    if name in DIRECT_FAIL:
+        cls, args = DIRECT_FAIL[name]
+        ev = env.event()
+        raised = []
+
+        def controller():
+            yield env.timeout(4)
+            try:
+                ev.fail(cls(*args))
+            except BaseException as e:    # noqa: B036
+                raised.append((type(e).__name__, str(e)[:80]))
+
+        env.process(waiter("w1", ev))
+        env.process(waiter("w2", ev))
+        env.process(controller())
+        run_exc = None
+        try:
+            env.run()
+        except BaseException as e:        # noqa: B036
+            run_exc = (type(e).__name__, str(e)[:80])
+        sig = "fail-rejects-baseexception"
+        chk(sig, not raised, f"ev.fail({cls.__name__}{args}) raised {raised}")
+        chk(sig, run_exc is None, f"env.run() raised {run_exc} although both waiters handle the failure")
+        chk(sig, ev.triggered and getattr(ev, "_ok", None) is False, f"after fail({cls.__name__}): triggered={ev.triggered}, "
+            f"ok={getattr(ev, '_ok', 'unset')}")
+        chk(sig, ev.processed and ev.defused, f"after the waiters handled it: processed={ev.processed}, defused={ev.defused}")
+        want = [("w1", 4, cls, args), ("w2", 4, cls, args)]
+        chk(sig, log == want, f"waiters of an event failed with {cls.__name__}{args} at 4 received {log}, expected each exactly "
+            f"once, in registration order, type and args preserved")
+    elif name in DIRECT_NONEXC:
+        bad = DIRECT_NONEXC[name]
+        ev = env.event()
+        got = []
+
+        def controller():
+            yield env.timeout(1)
+            try:
+                ev.fail(bad)
+                got.append(None)
+            except BaseException as e:    # noqa: B036
+                got.append((type(e), str(e)))
+
+        env.process(waiter("w1", ev))
+        env.process(controller())
+        run_exc = None
+        try:
+            env.run()
+        except BaseException as e:        # noqa: B036
+            run_exc = (type(e).__name__, str(e)[:80])
+        sig = "fail-accepts-non-exception"
+        chk(sig, got and got[0] is not None and got[0][0] is ValueError and "is not an exception" in got[0][1],
+            f"ev.fail({bad!r}) answered {got}, expected ValueError('... is not an exception.')")
+        chk(sig, not ev.triggered and not ev.processed and not ev.defused and ev.callbacks is not None and len(ev.callbacks) == 1,
+            f"after the rejected fail({bad!r}): triggered={ev.triggered}, processed={ev.processed}, defused={ev.defused}, "
+            f"callbacks={ev.callbacks}")
+        chk(sig, log == [] and run_exc is None, f"rejected fail({bad!r}): waiter saw {log}, env.run() raised {run_exc}")
+    elif name in DIRECT_CHILD:
+        cls, args = DIRECT_CHILD[name]
+
+        def child():
+            yield env.timeout(6)
+            raise cls(*args)
+
+        c = env.process(child())
+        env.process(waiter("p1", c))
+        env.process(waiter("p2", c))
+        run_exc = None
+        try:
+            env.run()
+        except BaseException as e:        # noqa: B036
+            run_exc = (type(e).__name__, str(e)[:80])
+        sig = "fail-rejects-baseexception"
+        chk(sig, run_exc is None, f"env.run() raised {run_exc} although both joiners handle the child's {cls.__name__}")
+        chk(sig, c.triggered and getattr(c, "_ok", None) is False and type(c._value) is cls and c._value.args == args,
+            f"child raised {cls.__name__}{args}: process event ok={getattr(c, '_ok', 'unset')}, value={c._value!r}")
+        want = [("p1", 6, cls, args), ("p2", 6, cls, args)]
+        chk(sig, log == want, f"joiners of a child that raised {cls.__name__}{args} at 6 received {log}")
+        chk(sig, c.processed and c.defused, f"processed={c.processed}, defused={c.defused}")
+    else:
+        raise ValueError(name)
+    return {"direct": name, "checks": checks}
+
+
 # ----------------------------------------------------------------------------------------------------
 
 class C02(Prop):
@@ -521,18 +645,41 @@ class C02(Prop):
         return mutate_case(rng, kc.gen_case(rng, KNOBS))
 
     def run_impl(self, case):
+        if case.get("kind") == "direct":
+            try:
+                return run_direct(case["name"])
+            except Exception as e:
+                return {"direct": case["name"], "checks": [], "crash": repr(e)[:300]}
         return DHarness(case).run()
 
     def agree_term(self, case, obs):
+        if case.get("kind") == "direct":
+            return None                    # exception classes outside the script language: no model term
         return kc.agree_term(case, obs)
 
     def model_term(self, case):
+        if case.get("kind") == "direct":
+            return None
         return kc.model_term(case)
 
     def shrink(self, case):
+        if case.get("kind") == "direct":
+            return []
         return kc.shrink(case)
 
+    def extra_checks(self, rng, tier):
+        viol, n = [], 0
+        for name in DIRECT:
+            case = {"kind": "direct", "name": name, "_noshrink": True}
+            obs = self.run_impl(case)
+            n += len(obs.get("checks", []))
+            for m in self.monitor(case, obs):
+                viol.append((case, obs, m))
+        return viol, {"direct_checks": n, "direct_scenarios": len(DIRECT)}
+
     def nontrivial(self, case, obs):
+        if case.get("kind") == "direct":
+            return True
         steps = [d for d in obs.get("dlog", []) if d[0] == "step"]
         if len(steps) < 5:
             return False
@@ -542,6 +689,8 @@ class C02(Prop):
         return multi or thrown or rejected
 
     def describe(self, case, obs):
+        if case.get("kind") == "direct":
+            return ["direct:" + case["name"]]
         keys = [case.get("kind", "random")]
         d = obs.get("dlog", [])
         steps = [x for x in d if x[0] == "step"]
@@ -577,6 +726,15 @@ class C02(Prop):
 
     # ---- the property, as an oracle over the delivery log -------------------------------------------------------
     def monitor(self, case, obs):
+        if case.get("kind") == "direct":
+            if obs.get("crash"):
+                return ["direct-scenario-crashed: " + case["name"] + " " + obs["crash"]]
+            out, seen = [], set()
+            for sig, ok, what in obs.get("checks", []):
+                if not ok and sig not in seen:
+                    seen.add(sig)
+                    out.append(f"{sig}: [{case['name']}] {what}")
+            return out
         msgs = list(kc.basic_monitor(case, obs))
         if obs.get("aborted"):
             return msgs
